@@ -20,12 +20,14 @@ from .ordabs import Ev, ModelRaise, Obj
 
 
 def _points(max_subs: int):
+    """(pos, len(input), first occurrence of each terminator at or after pos (or -1), length of each terminator)."""
     for pos in (0, 3):
-        length = pos + 4
+        length = pos + 5
         results = [-1, pos, pos + 1, pos + 2]
         for k in range(1, max_subs + 1):
             for combo in itertools.product(results, repeat=k):
-                yield pos, length, list(combo)
+                for lens in itertools.product((1, 2), repeat=k):
+                    yield pos, length, list(combo), list(lens)
 
 
 def _expected(length: int, combo: list[int]) -> int:
@@ -33,11 +35,21 @@ def _expected(length: int, combo: list[int]) -> int:
     return min(found) if found else length
 
 
-def _oracle(combo: list[int], pos: int):
-    def find(recv: Obj, sub: str, start: int | None = None) -> int:
+def _oracle(combo: list[int], lens: list[int], pos: int):
+    """str.find(sub, start[, end]) on the abstract input: the first occurrence of terminator i at or after pos is
+    combo[i]; with an end bound it is found only if it lies wholly inside the window (a later occurrence starts
+    later and fits even less)."""
+
+    def find(recv: Obj, sub: str, start: int | None = None, end: int | None = None) -> int:
         if start != pos:
             raise ModelRaise(f"search does not start at state.pos (start={start!r})")
-        return combo[int(sub[1:])]
+        i = int(sub[1:])
+        r = combo[i]
+        if r == -1:
+            return -1
+        if end is not None and r + lens[i] > end:
+            return -1
+        return r
 
     return find
 
@@ -48,13 +60,13 @@ def check_parse(fn: ast.FunctionDef, where: str, max_subs: int = 3) -> tuple[int
         raise AnalysisError(f"anchor vanished: {where} signature")
     bad: list[str] = []
     n = 0
-    for pos, length, combo in _points(max_subs):
+    for pos, length, combo, lens in _points(max_subs):
         n += 1
         text = Obj("str", _len=length)
         state = Obj("ParserState", input=text, pos=pos)
         me = Obj("SkipUntil", subs=[f"s{i}" for i in range(len(combo))])
-        ev = Ev({params[0]: me, params[1]: state, params[2]: []}, where, {("str", "find"): _oracle(combo, pos)})
-        desc = f"pos={pos}, len(input)={length}, find results={combo}"
+        ev = Ev({params[0]: me, params[1]: state, params[2]: []}, where, {("str", "find"): _oracle(combo, lens, pos)})
+        desc = f"pos={pos}, len(input)={length}, first occurrences={combo}, terminator lengths={lens}"
         try:
             res = ev.run_function(fn.body)
         except ModelRaise as err:
@@ -80,13 +92,13 @@ def check_skeleton(source: str, where: str, max_subs: int = 3) -> tuple[int, lis
         raise AnalysisError(f"{where}: expected one `<matched> = True` in the emitted code")
     bad: list[str] = []
     n = 0
-    for pos, length, combo in _points(max_subs):
+    for pos, length, combo, lens in _points(max_subs):
         n += 1
         text = Obj("str", _len=length)
         state = Obj("ParserState", input=text, pos=pos)
         env = {"state": state, free[0]: [f"s{i}" for i in range(len(combo))]}
-        ev = Ev(env, where, {("str", "find"): _oracle(combo, pos)})
-        desc = f"pos={pos}, len(input)={length}, find results={combo}"
+        ev = Ev(env, where, {("str", "find"): _oracle(combo, lens, pos)})
+        desc = f"pos={pos}, len(input)={length}, first occurrences={combo}, terminator lengths={lens}"
         try:
             ev.run(tree.body)
         except ModelRaise as err:
